@@ -237,20 +237,23 @@ def dao_direction(prog: Program) -> RuleResult:
                     preset[("ord", f"{var}.direction", k)] = 0 if k == d else 1
                 # membership guards unrelated to the classification (reader: key not among constructor args)
                 paths = explore_block(prog, f, body, {var: Sym(var), **{p: Sym(p) for p in f.params}}, preset=preset, inline=lambda q: False)
-                kinds = set()
+                found = []
                 for val, outcome, calls in paths:
-                    skip = [a for a, v in val.items() if a not in preset and a[0] == "in" and v is False and outcome == ("return", ("continue",))]
-                    if outcome == ("return", ("continue",)) and any(a[0] == "in" for a in val if a not in preset):
-                        continue
+                    # membership guards unrelated to the classification (reader: the key is not among the constructor's arguments), whether
+                    # they are written `if key not in names: continue` or `if key in names: <classify>`
+                    member = tuple(sorted((a, v) for a, v in val.items() if a not in preset and a[0] == "in"))
                     names = {c.fn.split(".")[-1] for c in calls}
                     if outcome[0] == "raise":
-                        kinds.add("raise")
+                        kind = "raise"
                     elif names & single_names:
-                        kinds.add("single")
+                        kind = "single"
                     elif names & coll_names:
-                        kinds.add("collection")
+                        kind = "collection"
                     else:
-                        kinds.add("ignored")
+                        kind = "ignored"
+                    found.append((member, kind))
+                deciding = {m for m, k in found if k != "ignored"}
+                kinds = {k for m, k in found if not deciding or not m or m in deciding}
                 out[(d, ul)] = kinds
         return out
 
